@@ -1,18 +1,20 @@
 ------------------------- MODULE MC_PipelineCache ---------------------------
-(* Model checking of layer B of PipelineCache (the key scheme as implemented / as repaired) over the small   *)
-(* descriptions of MC_PipelineCall's TLA+-defined universe, every non-empty subset of cached functions, and *)
-(* histories of at most MaxLen events (calls that succeed without caching: every output, every valid cut    *)
-(* incl. supplied intermediates, two values per name, pipeline(out) and full_output; mutations               *)
-(* update_defaults / update_bound / replace, at most MaxMut per history).                                   *)
-(*                                                                                                          *)
-(* Scheme = "repaired": invariants HCoherent and HCorrect must hold (design check of the fix).              *)
-(* Scheme = "asis": TLC explores the same histories, stops a behaviour at the first call that returns a      *)
-(* value different from Eval_now, names the cause (PipelineCache!Diagnose) and prints one witness history   *)
-(* per distinct reachable model state (HExport) - these are replayed on the real twin pipelines.            *)
+(* Model checking of layer B of PipelineCache (the key scheme as implemented / as repaired) over families of   *)
+(* small descriptions built with MC_PipelineCall!Desc (and its whole 2-function universe), every non-empty    *)
+(* subset of cached functions, and histories of at most MaxLen events: calls that succeed without caching     *)
+(* (every output, every valid cut incl. supplied intermediates, two values per name, pipeline(out) and        *)
+(* full_output) and mutations update_defaults / update_bound / replace (at most MaxMut per history).          *)
+(*                                                                                                            *)
+(* Scheme = "repaired": invariants HCoherent and HCorrect must hold (design check of the fix).                *)
+(* Scheme = "asis": TLC explores the same histories, stops a behaviour at the first call that returns a        *)
+(* value different from Eval_now, names the cause (PipelineCache!Diagnose) and prints witness histories        *)
+(* (HExport: one per distinct reachable model state that ends a history) - these are replayed on the real     *)
+(* twin pipelines.                                                                                            *)
 EXTENDS PipelineCache, MC_PipelineCall
 CONSTANTS MaxLen, MaxMut,
           Family,      \* "f2" | "q2" | "f3" | "u2" (see below; N must be 2, 2, 3, 2)
-          Export       \* TRUE: print witness histories
+          Export,      \* TRUE: print witness histories
+          ExportMod    \* of the histories that end without a wrong value only every ExportMod-th is printed
 
 K2(n) == [f |-> "@k2_" \o n, a |-> <<>>]     \* second keyword value for n
 D2(n) == [f |-> "@d2_" \o n, a |-> <<>>]     \* default value set by update_defaults
@@ -83,7 +85,6 @@ VARIABLES cache,     \* layer B: the pipeline's cache
 hvars == <<cvars, avars, cache, hist, verdict, dvers, tab>>
 CallRec(dd, c) == [o |-> c[1], k |-> c[2],
                    ks   |-> [i \in FIdx(dd) |-> ImplKey(dd, c[2], i)],
-                   need |-> Needed(dd, c[2], c[1]),
                    req  |-> [m \in Modes |-> Required(dd, c[2], c[1], m)]]
 TabOf(dd) == LET cs == CallSet(dd) IN [ready |-> TRUE, calls |-> {CallRec(dd, c) : c \in cs}, keys |-> KeyTable(dd, cs)]
 NoTab     == [ready |-> FALSE, calls |-> {}, keys |-> {}]
@@ -128,6 +129,6 @@ HCorrect  == verdict = "ok"
 HCutsAgree == Len(hist) = 0 => \A o \in AllOutputs(d) : FastCuts(d, o) = Cuts(d, o)
 (* one entry per key, never the null key *)
 HKeysSane == \A e \in cache : e.k # NoKey /\ \A x \in cache : x.k = e.k => x = e
-HExport   == (Export /\ tab.ready /\ (Len(hist) = MaxLen \/ verdict # "ok")) =>
+HExport   == (Export /\ tab.ready /\ (verdict # "ok" \/ (Len(hist) = MaxLen /\ TLCGet("distinct") % ExportMod = 0))) =>
                 PrintT(<<"HIST", ToJson([desc |-> dvers[1].d, hist |-> hist, verdict |-> verdict, coherent |-> HCoherent])>>)
 =============================================================================
